@@ -317,7 +317,7 @@ class RaceSim:
                     "--pipeline", "benchmark-only",
                     "--distribution-version", "8.6.1",
                     "--target-hosts", "127.0.0.1:9200",
-                    "--client-options", "static_responses:'sim',timeout:60",
+                    "--client-options", "static_responses:'sim',timeout:60" + (",retry_on_timeout:true" if cfg.get("client_retry_on_timeout") else ""),
                     "--on-error", cfg.get("on_error", "continue"),
                     "--load-driver-hosts", ",".join(cfg["hosts"]),
                     "--race-id", "race-sim-1",
